@@ -44,7 +44,8 @@ def free_network(draw, tier):
             "labels": draw(st.sampled_from(["id", "id", "perm", "offset", "str"])),
             "perm": list(draw(st.permutations(list(range(n))))),
             "insert": draw(st.sampled_from(["nodes_first", "by_edges"])),
-            "jd_type": draw(st.sampled_from(["tuple", "tuple", "list"]))}
+            "jd_type": draw(st.sampled_from(["tuple", "tuple", "list"])),
+            "weights": draw(st.booleans())}
 
 
 def strategy(tier):
@@ -72,6 +73,9 @@ def build(case):
         for u, v, t in net["edges"]:
             G.add_edge(lab(u), lab(v))
             G.edges[lab(u), lab(v)][NN.TOPOLOGY] = net["names"][t]
+            if net.get("weights"):
+                # other edge data may be present on an annotated network (it must not influence the matrices)
+                G.edges[lab(u), lab(v)]["weight"] = [0, 2.5, 3, 1][(u + 2 * v) % 4]
         for v in range(net["n"]):
             G.add_node(lab(v))
             G.nodes[lab(v)][NN.JOINT_DEGREE] = conv(net["jd"][v])
